@@ -123,3 +123,48 @@ Theorem C06_reserve_zeroed_establishes :
                   translation s' A temp_page = None).
 Proof. exact reserve_zeroed_spec. Qed.
 Print Assumptions C06_reserve_zeroed_establishes.
+
+(** * The zero frame over the whole mapping interface, on any number of address spaces, armed inside the history
+
+    Vocabulary of Props/C04.v ([C04_histories_full]: requests [qop] = Map / Unmap / Translate / MapTemporary / MapRegion /
+    IdentityMapRegion / PageDirectoryTable.{Init, Map, Unmap, Activate} on any initialised table / reserveZeroedFrame,
+    adaptive histories [hist], abstract machine [ast], [Rel], [Steps]); in addition
+      [qavoid o a]  the client does not ask to map a frame that still belongs to the physical allocator ([apool];
+                    a frame the allocator has handed out - the zero frame - is no longer in it);
+      [NP a]        no address space maps a frame of [apool];
+      [ZI a]        if the guard is armed, no address space maps the zero frame writable and it is a data frame.
+    From any such state, after any safe history - with the allocator failing anywhere and reserveZeroedFrame called
+    anywhere in it - if the guard is armed at the end then the zero frame is all zeroes and NO address space (active
+    or not) maps it with the writable bit set.  Page faults are not part of these histories; they are covered on the
+    active space by [C06_zero_frame_inv]. *)
+From FF Require Import Vmm.PtInit Vmm.PtHist Vmm.PtKernel Vmm.Region Vmm.RegionProofs Vmm.PtGlobal Vmm.PtHist2.
+
+Theorem C06_zero_frame_inv_full :
+  forall (h : hist) s a g,
+    Rel s a g -> hsafe (fun o a => qdom o a /\ qavoid o a) h a -> NP a -> ZI a ->
+    (aprot a = true -> forall i, ent s (azf a) i = 0) ->
+    exists rs s' a' g',
+      Steps h s a rs s' a' /\ Rel s' a' g' /\
+      (prot s' = true ->
+         (forall i, ent s' (zf s') i = 0) /\
+         (forall R q fl, In R (aroots a') -> hw_idx q 0 <> 511 -> translation s' R q = Some (zf s', fl) -> N.testbit fl 1 = false)).
+Proof. exact histories_full_zero. Qed.
+Print Assumptions C06_zero_frame_inv_full.
+
+(** from the boot state nothing has to be assumed about the guard: it is armed by the history itself *)
+Theorem C06_zero_frame_inv_boot :
+  forall lo0 cnt0 last0 oracle free pool,
+    0 < cnt0 -> lo0 + cnt0 <= 2 ^ 40 -> NoDup (ofr oracle) ->
+    (forall f, In f oracle -> f <> 0 -> lo0 < f /\ f < lo0 + cnt0) ->
+    (forall F, In F free -> lo0 < F /\ F < lo0 + cnt0 /\ ~ In F oracle) ->
+    WFstart (if last0 =? 0 then vmm_tempMappingAddr else last0) -> incl oracle pool ->
+    forall h, hsafe (fun o a => qdom o a /\ qavoid o a) h (a_boot lo0 (if last0 =? 0 then vmm_tempMappingAddr else last0) free pool) ->
+    exists rs s' a' g',
+      run_hist h (init_state lo0 cnt0 last0 oracle) = Ok (rs, s') /\
+      Steps h (init_state lo0 cnt0 last0 oracle) (a_boot lo0 (if last0 =? 0 then vmm_tempMappingAddr else last0) free pool) rs s' a' /\
+      Rel s' a' g' /\
+      (prot s' = true ->
+         (forall i, ent s' (zf s') i = 0) /\
+         (forall R q fl, In R (aroots a') -> hw_idx q 0 <> 511 -> translation s' R q = Some (zf s', fl) -> N.testbit fl 1 = false)).
+Proof. exact boot_histories_zero. Qed.
+Print Assumptions C06_zero_frame_inv_boot.
